@@ -13,6 +13,15 @@ REALS_AXIOMS = ["ClassicalDedekindReals.sig_forall_dec", "ClassicalDedekindReals
                 "FunctionalExtensionality.functional_extensionality_dep"]
 
 PROPS = {
+    "C04": {
+        "drivers": [{"src": "drv_C04.C", "repo_sources": ["util/Pauli.C"]}],
+        "coq": ["Tie_C04.v", "Properties_C04.v"],
+        "thm_files": ["SpecJones.v"],
+        "assumptions": ["division by a complex scalar z requires z <> 0, inverse requires det <> 0",
+                        "mixed precision: the promoted type is fixed by static_asserts in the driver; single-precision stores are the identity over R",
+                        "Jones::identity() cannot be instantiated at the symbolic scalar (int -> complex needs two user conversions); covered by the scalar constructor tie and a plain-build oracle"],
+        "trusted_base": [],
+    },
     "C16": {
         "drivers": [{"src": "drv_C16.C", "repo_sources": ["util/Pauli.C"]}],
         "coq": ["Tie_C16.v", "Properties_C16.v"],
